@@ -44,11 +44,11 @@ theorem C20_accept (T : Tables) (plain : Str) (hits : List (Nat × Nat)) (i : Na
       i ∈ singleLetters T none 0 plain ∧ ∀ h ∈ hits, ¬ (h.1 ≤ i ∧ i < h.2) :=
   singleLetterOffsets_spec T plain hits i
 
-theorem C20_context_marks (txt : Str) (offset length : Nat) (h : offset + length ≤ txt.length) (hl : length ≤ 45) :
+theorem C20_context_marks (txt : Str) (offset length : Nat) (h : offset + length ≤ txt.length) :
     let c := createContext txt offset length
     ((c.text.drop c.offset).take c.length) =
       ((txt.drop offset).take length).map (fun ch => if ch == '\t' || ch == '\n' then ' ' else ch) :=
-  createContext_marks txt offset length h hl
+  createContext_marks txt offset length h
 
 /-! ### the accept patterns (Model/Checks.lean) -/
 
